@@ -29,6 +29,11 @@ LEVEL_NOTE = "Trusts: Lean kernel for the model theorems; the OS and crossbeam b
 TECHNIQUE = "Lean 4 theorems over a FIFO transport model (all schedules) + Lean acceptor evaluated on histories of the real transports under concurrent sender threads"
 
 
+
+# round 5 additions
+THEOREMS = THEOREMS + ['Portus.C18.dead_handle_cannot_send']
+AUDIT_IMPORTS = list(globals().get('AUDIT_IMPORTS', [])) + ['PortusModel.Props.C18Own']
+
 def gen(ctx):
     rng = ctx.rng
     for kind in ("chan", "unix"):
